@@ -279,6 +279,8 @@ class Exec:
 
     def as_dict(self, st, v):
         if isinstance(v, PDict): return v.arr
+        if self.spec.heap_dicts and isinstance(v, ZV) and v.kind == 'val':
+            return st.readz('st_items', Val.ref(v.z))            # a shared dict object: its current content lives in the heap
         if isinstance(v, ZV) and v.kind == 'val': return dict_c(Val.dk(v.z))
         if isinstance(v, PConst) and isinstance(v.obj, dict) and all(isinstance(k, str) for k in v.obj):
             arr = EMPTY_DICT
@@ -605,6 +607,8 @@ class Exec:
         if isinstance(c, PTuple):
             iv = to_val(item, st)
             return [(st, Or(*[py_eq(iv, to_val(x, st)) for x in c.items]) if c.items else BoolVal(False))]
+        if self.spec.heap_dicts and isinstance(c, ZV) and c.kind == 'val':
+            return [(st, Opt.is_Some(self.as_dict(st, c)[self.as_str(st, item)]))]
         if isinstance(c, ZV) and c.kind == 'val':
             outs = []
             if isinstance(item, PConst) and isinstance(item.obj, str) or (isinstance(item, ZV) and item.kind == 'str'):
@@ -745,6 +749,10 @@ class Exec:
         if isinstance(target, ast.Subscript):
             def then(s1, vals):
                 c, i = vals
+                if self.spec.heap_dicts and isinstance(c, ZV) and c.kind == 'val':
+                    s1 = s1.copy(); r = Val.ref(c.z)
+                    s1.write('st_items', r, PDict(Store(s1.readz('st_items', r), self.as_str(s1, i), Opt.Some(to_val(v, s1)))))
+                    return [(s1, NEXT)]
                 return self.store_back(s1, target.value, self.setitem(s1, c, i, v))
             return self._exprflow(self.evs([target.value, target.slice], st), then)
         raise Unsupported(f'assignment target {type(target).__name__}')
@@ -795,7 +803,11 @@ class Exec:
                     c, i = vals; outs = []
                     for s2, present in self.contains(s1, c, i, t.lineno):
                         for s3, side in self.fork(s2, present, f'L{t.lineno}.del'):
-                            if side: outs.extend(self.store_back(s3, t.value, self.delitem(s3, c, i)))
+                            if side and self.spec.heap_dicts and isinstance(c, ZV) and c.kind == 'val':
+                                s3 = s3.copy(); r = Val.ref(c.z)
+                                s3.write('st_items', r, PDict(Store(s3.readz('st_items', r), self.as_str(s3, i), Opt.Absent)))
+                                outs.append((s3, NEXT))
+                            elif side: outs.extend(self.store_back(s3, t.value, self.delitem(s3, c, i)))
                             else: outs.append((s3, ('raise', PExc('KeyError', val=Val.Obj(fresh('exc', IntSort())), where='del'))))
                     return outs
                 nxt.extend(self._exprflow(self.evs([t.value, t.slice], s0), then))
